@@ -18,13 +18,17 @@ def coord_values(kind, size, rng, dim):
     raise ValueError(kind)
 
 
-def make_array(dims, sizes, kinds, rng, base=0.0, name=None, extra_coord=False):
+def make_array(dims, sizes, kinds, rng, base=0.0, name=None, extra_coord=False, coord_attrs=False):
     """DataArray with unique integer-valued entries (exact comparisons)"""
     import xarray as xr
     n = int(np.prod(sizes))
     data = (np.arange(n, dtype=float) * 1.0 + base).reshape(sizes)
     coords = {d: coord_values(k, s, rng, d) for d, s, k in zip(dims, sizes, kinds)}
     da = xr.DataArray(data, dims=dims, coords=coords, name=name)
+    if coord_attrs:
+        # coordinates documented the way files from a data centre are (units, long_name)
+        for d in dims:
+            da[d].attrs.update({"units": "unit_of_" + d, "long_name": d + " coordinate"})
     if extra_coord:
         d0 = dims[-1]
         da = da.assign_coords({"aux_" + d0: (d0, np.arange(sizes[-1]) * 0.5)})
@@ -51,15 +55,24 @@ def layouts(rng, quick=True):
                     for rep in range(1 if quick else 2):
                         kinds = [str(rng.choice(kinds_all)) for _ in perm]
                         sizes = [int(rng.integers(2, 4)) for _ in perm]
+                        if nf >= 2 and rng.random() < 0.25:
+                            # a feature dimension of length one (a single level, a single station)
+                            fpos = [q for q, d in enumerate(perm) if d in fd]
+                            sizes[fpos[int(rng.integers(0, len(fpos)))]] = 1
                         sorder = list(rng.permutation(sd))
                         out.append(dict(container=container, dims=list(perm), sizes=sizes, kinds=kinds, sample_dims=[str(x) for x in sorder],
                                         names=("sample", "feature") if rng.random() < 0.6 else ("smp", "ftr"),
-                                        extra_coord=bool(rng.random() < 0.3), multiindex=None,
+                                        extra_coord=bool(rng.random() < 0.3), multiindex=None, coord_attrs=bool(rng.random() < 0.4),
                                         ds_mode="equal" if rng.random() < 0.75 else "different"))
     # long lists (more than ten items: positions need two digits), every item with its own feature labels
     for n_items, kinds in ((12, ["asc", "unsorted"]), (11, ["datetime", "str"])) if quick else ((12, ["asc", "unsorted"]), (11, ["datetime", "str"]), (23, ["unsorted", "unsorted"])):
         out.append(dict(container="list", dims=["time", "lat"], sizes=[3, 3], kinds=kinds, sample_dims=["time"], names=("sample", "feature"),
                         extra_coord=False, multiindex=None, ds_mode="equal", n_items=n_items))
+    # feature dimensions of length one: a single station per variable (a Dataset of two variables: two features), a single level of a grid
+    for container, dims_, sizes_ in (("Dataset", ["time", "lat"], [4, 1]), ("Dataset", ["time", "lat", "lon"], [4, 1, 3]), ("Dataset", ["lon", "time", "lat"], [3, 4, 1]),
+                                     ("DataArray", ["time", "lat", "lon"], [4, 1, 3]), ("list", ["time", "lat", "lon"], [4, 3, 1])):
+        out.append(dict(container=container, dims=dims_, sizes=sizes_, kinds=["asc"] * len(dims_), sample_dims=["time"], names=("sample", "feature"),
+                        extra_coord=False, multiindex=None, ds_mode="equal"))
     # MultiIndex layouts: one sample dim or one feature dim is itself a MultiIndex
     for container in ("DataArray", "Dataset", "list"):
         for which in ("sample", "feature"):
@@ -80,7 +93,7 @@ def build(lay, rng):
         if drop_dim is not None and drop_dim in d and len([x for x in d if x not in lay["sample_dims"]]) > 1:
             i = d.index(drop_dim)
             d.pop(i), s.pop(i), k.pop(i)
-        da = make_array(d, s, k, rng, base=base, name=name, extra_coord=lay["extra_coord"])
+        da = make_array(d, s, k, rng, base=base, name=name, extra_coord=lay["extra_coord"], coord_attrs=lay.get("coord_attrs", False))
         if lay["multiindex"] == "feature":
             da = da.stack(ff=("lat", "lon"))
         if lay["multiindex"] == "sample":
